@@ -36,10 +36,12 @@ fn main() {
         "C15" => c15::run(seed, tier, &mut out),
         "C16" => c16::run(seed, tier, &mut out),
         "C12" => c12::run(seed, tier, &mut out),
+        "C12W" => c12::run_wide(seed, tier, &mut out),
         "C09" => c09::run(seed, tier, &mut out),
         "C18" => c18::run(seed, tier, &mut out),
         "C17" => c17::run(seed, tier, &mut out),
         "C13" => c13::run(seed, tier, &mut out),
+        "C13R" => c13::run_resize(seed, tier, &mut out),
         "C11" => c11::run(seed, tier, &mut out),
         "C11T" => c11::run_trackers(seed, tier, &mut out),
         "C06" => c06::run(seed, tier, &mut out),
